@@ -50,9 +50,9 @@ def gen_cases(ctx):
         c["id"] = len(cases) + 1
         cases.append(c)
 
-    def retry_case(mode, n, retry, idem, calls, reuse=False, gen=""):
+    def retry_case(mode, n, retry, idem, calls, reuse=False, gen="", backoff=(0, 0)):
         add({"kind": "retry", "mode": mode, "n": n, "retry": retry, "idem": idem, "calls": calls,
-             "reuse": reuse, "gen": gen})
+             "reuse": reuse, "gen": gen, "min_ns": backoff[0], "max_ns": backoff[1]})
 
     max_retry = 3 if quick else 4
     max_n = 4 if quick else 5
@@ -88,6 +88,29 @@ def gen_cases(ctx):
             for retried0 in (1, 2, 3, 7, -1):
                 ss = scripts(4)
                 retry_case(mode, n, 3, True, [call(s, retried=retried0) for s in ss], gen="retried-item")
+    # B'. non-zero back-off (nanoseconds, so a whole case still takes microseconds): interval
+    # below the cap, exactly at it, above it, negative / zero (failover while retried <=
+    # number of URLs), max < min, max 0; retry budgets beyond max/min.  Observed: attempts,
+    # URLs, result, retried item and the intervals the real OnRetry returned — never a clock.
+    backoffs = [(1000, 2000), (1000, 3500), (1000, 1000), (2000, 1000), (50000, 100000), (1, 5), (3000, 0), (7, 20)]
+    for mode in ("failtry", "failover"):
+        for bo in backoffs:
+            for n in ((1, 2) if mode == "failtry" else (1, 2, 3, 4)):
+                for retry in (0, 1, 2, 3, 5, 8):
+                    calls = [call("")]
+                    if retry <= 2:
+                        calls += [call(s) for s in scripts(retry + 2)]
+                    else:
+                        for k in range(0, retry + 2):
+                            calls.append(call("E" * k + "O"))
+                            calls.append(call(("PE" * 6)[:k] + "O"))
+                        calls.append(call("P" * (retry + 2)))
+                    calls += [call("EEO", idem=False), call("", retry=retry + 3), call("EPEPEPEPEPEPEO", retry=12),
+                              call("", retried=2)]
+                    retry_case(mode, n, retry, True, calls, gen="backoff", backoff=bo)
+                retry_case(mode, n, -1, True, [call(""), call("EEEEEEEEEO"), call("P" * 12)], gen="backoff", backoff=bo)
+                retry_case(mode, n, 4, True, [call("EEO"), call(""), call("EO"), call("")], reuse=True, gen="backoff",
+                           backoff=bo)
     # negative plugin retry (New turns it into 10): success at every position, all failing
     for mode in MODES:
         for n in (1, 2, 3, 4):
@@ -129,7 +152,8 @@ def gen_cases(ctx):
                               retry=rng.choice([None, None, None, 0, 1, 2, 5, -1]),
                               retried=rng.choice([None, None, None, 1, 2])))
         retry_case(mode, n, rng.choice([retry, retry, -1]) if retry <= 3 else retry, rng.random() < 0.7, calls,
-                   reuse=rng.random() < 0.25, gen="random")
+                   reuse=rng.random() < 0.25, gen="random",
+                   backoff=rng.choice([(0, 0), (0, 0), (1000, 2500), (10, 10), (500, 3000), (2000, 1500)]))
     # E. forking / broadcast: all outcome vectors x all completion orders
     fan_n = 4 if quick else 5
     for kind in ("fork", "bcast"):
@@ -169,7 +193,7 @@ def gen_cases(ctx):
 def model_line(c):
     if c["kind"] == "retry":
         parts = ["R", c["mode"], str(c["n"]), str(c["retry"]), "1" if c["idem"] else "0",
-                 "1" if c.get("reuse") else "0"]
+                 "1" if c.get("reuse") else "0", str(c.get("min_ns", 0)), str(c.get("max_ns", 0))]
         for cl in c["calls"]:
             parts += [cl["outs"] or "-",
                       "-" if cl.get("idem") is None else ("1" if cl["idem"] else "0"),
@@ -185,8 +209,9 @@ def model_line(c):
 def project(c, ob):
     """the implementation's behaviour in the model's output vocabulary"""
     if c["kind"] == "retry":
-        return " | ".join("urls=%s res=%s retried=%d url=%d nf=%d ns=%d" % (
-            ",".join(map(str, o["urls"])), o["res"], o["retried"], o["url"], o["nf"], o["ns"])
+        return " | ".join("urls=%s res=%s retried=%d url=%d nf=%d ns=%d iv=%s" % (
+            ",".join(map(str, o["urls"])), o["res"], o["retried"], o["url"], o["nf"], o["ns"],
+            ",".join(map(str, o.get("iv") or [])))
             for o in ob.get("calls", []))
     inv = ",".join(map(str, sorted(ob.get("invoked", []))))
     if c["kind"] == "fork" or c["n"] == 0:
@@ -196,7 +221,12 @@ def project(c, ob):
 
 # --------------------------------------------------------------------------- the property itself
 
+RUNAWAY_CAP = 64  # harness: from this attempt on the scripted handler answers with a success
+
+
 def outcome_at(outs, k):
+    if k >= RUNAWAY_CAP:
+        return ("O", k)
     return (outs[k], k) if k < len(outs) else ("E", 999)
 
 
@@ -373,7 +403,9 @@ def canon(c):
 def run(ctx):
     ctx.level = "proof"
     ctx.assumptions += [
-        "the back-off sleep of OnRetry is not modelled (intervals are set to 0 through WithMinInterval/WithMaxInterval)",
+        "the back-off interval OnRetry returns is modelled (min*retried resp. min*(retried-len(urls)), clamped to max) and "
+        "compared with what the real closure returns; the sleep itself is not observed (no verdict depends on a clock); "
+        "int64 overflow of minInterval*retried is out of reach",
         "calls through one plugin are sequential; the failover index is an atomic int64 far from overflow",
         "Forking/Broadcast: the completion effect of a goroutine (atomic.AddInt64 + once.Do, or the slot write + once.Do) "
         "is one atomic step of the LTS; sync.Once / WaitGroup / channel close behave as documented",
@@ -435,7 +467,8 @@ def run(ctx):
     ctx.note("rule", "a case = one plugin instance + a sequence of calls (or one forking/broadcast call); exhaustive O/E/P "
              "outcome sequences of length retry+2 for retry 0..%d x plugin idempotent flag x per-call override x 1..%d servers x "
              "{failover,failtry,failfast}, both on fresh plugins and as one long sequence through one plugin; per-call retry/"
-             "retried items incl. negative; negative plugin retry; New() default; triples of calls sharing a plugin; reused "
+             "retried items incl. negative; non-zero back-off (ns) below / at / above the cap, negative, max<min, budgets beyond "
+             "max/min; negative plugin retry; New() default; triples of calls sharing a plugin; reused "
              "ClientContext; forking/broadcast over all outcome vectors x all completion orders for 1..4 servers (+ sampled "
              "larger); seeded random runs. non-trivial = some attempt failed (retry kinds) / >=2 servers and some failure "
              "(fan-out); distinct by the whole case" % ((3, 4) if ctx.tier == "quick" else (4, 5)))
